@@ -52,11 +52,11 @@ def zeroVal (d : Desc) : Nat → Nat → Val
 
 /-! ### writer -/
 
-/-- Go `x != 0` / `len(x) != 0` / `x` tests of `type_rw_primitive_tl2.go`, `type_rw_bool_tl2.go`.
-For floats the Go test is a floating point comparison: `-0.0 != 0` is false. -/
+/-- The emptiness tests of `type_rw_primitive_tl2.go` (`TypeRWPrimitive.nonZeroCondition`), `type_rw_bool_tl2.go`:
+`x != 0` for integers, `len(x) != 0` for strings, `x` for booleans, and for floats `(x != 0 || 1/x < 0)`, i.e. a float is
+empty iff its **bit pattern** is zero: `-0.0` (`0x80000000` / `0x8000000000000000`) is not empty and is written out
+(`x != 0` alone is false for `-0.0`; `1/x < 0` is true exactly for `-0.0` among the values with `x == 0`; NaN has `x != 0`). -/
 def primEmpty : PrimK → Val → Bool
-  | .f32, .nat n => n % 2147483648 == 0
-  | .f64, .nat n => n % 9223372036854775808 == 0
   | .str, .str s => s.isEmpty
   | .bool _ _, .bool b => !b
   | .bit, .bool b => !b
@@ -231,7 +231,9 @@ def writeTL2 (d : Desc) (fuel ty : Nat) (optimizeEmpty : Bool) (v : Val) : Excep
   | .error e => .error e
   | .ok b => .ok (optBytes b)
 
-/-! ### the guard of C04: a float `-0.0` in a position where the writer tests `x != 0` -/
+/-! ### a float `-0.0` in a position where the writer tests emptiness
+Former guard of C04 (before the generator tested floats with `(x != 0 || 1/x < 0)` such a value was lost). The theorems no
+longer need it; `codec.g4` still evaluates it so that a check run against a tree with the old test can say what it hit. -/
 
 def negZero : PrimK → Val → Bool
   | .f32, .nat n => n % 2147483648 == 0 && n != 0
